@@ -21,6 +21,9 @@ from ..fakemp import FakeMP
 SYN_LOGICS = ["simlogic.scribble", "simlogic.counting", "simlogic.demote", "common.permanent",
               "common.default_instead_undo", "common.undo_redo", "common.ignore_changes"]
 
+ALT_MODELS = {"huawei": ["Huawei CE6870", "Huawei NE40E", "Huawei S5700", "Huawei Quidway S2326"],
+              "cisco": ["Cisco Catalyst 3750"], "nexus": ["Cisco Nexus 3172"], "arista": ["Arista DCS-7050"]}
+
 SYN_VENDORS = [("huawei", "Huawei CE0000 SIM-H%d"), ("cisco", "Cisco Catalyst SIM-H%d"), ("arista", "Arista SIM-H%d")]
 
 
@@ -64,20 +67,37 @@ def _syn_tree(rng, text):
 
 
 def _acl_text_for(rng, trees):
-    firsts = []
+    """ACL over the first words of the rows: overlapping rules for the same block head ('w ~' and 'w */[A-Za-z].*/'),
+    each listing the first words of the child rows with independently drawn %cant_delete flags, so that which rule
+    (and which merged child) governs a row depends on the row -- and must not depend on what was matched before"""
+    firsts, kids = [], {}
     for t in trees:
-        for row in t:
+        for row, sub in t.items():
             w = row.split()[0]
-            if w not in firsts and w.isidentifier():
+            if not w.replace("-", "").isidentifier():
+                continue
+            if w not in firsts:
                 firsts.append(w)
+            for crow in sub:
+                cw = crow.split()[0]
+                if cw.replace("-", "").isidentifier() and cw not in kids.setdefault(w, []):
+                    kids[w].append(cw)
     lines = []
     for w in firsts:
-        if rng.random() < 0.25:
+        if rng.random() < 0.2:
             continue
         cd = rng.choice(["", "", " %cant_delete=1", " %cant_delete=0"])
-        lines.append("%s ~%s" % (w, cd))
         lines.append("%s%s" % (w, cd))
-        lines.append("    ~ %global")
+        variants = ["%s ~" % w]
+        if kids.get(w) and rng.random() < 0.7:
+            variants.append("%s */[A-Za-z].*/" % w)
+        for pat in variants:
+            lines.append("%s%s" % (pat, cd))
+            for cw in kids.get(w, [])[:6]:
+                if rng.random() < 0.6:
+                    lines.append("    %s ~%s" % (cw, rng.choice(["", " %cant_delete=1", " %cant_delete=0"])))
+                    lines.append("    %s%s" % (cw, rng.choice(["", " %cant_delete=1", " %cant_delete=0"])))
+            lines.append("    ~ %global")
     return "\n".join(lines)
 
 
@@ -108,6 +128,12 @@ def build_jobs():
             old, new = (s["old"], s["new"]) if direction == "fwd" else (s["new"], s["old"])
             jobs.append({"kind": "corpus", "name": "%s %s" % (s["name"], direction), "hw": s["hw"], "old": old, "new": new,
                          "acl": None})
+        # the same configurations on other hardware models of the vendor (rulebook templates branch on the model)
+        for model in ALT_MODELS.get(s["vendor"], []):
+            if rng.random() < 0.5:
+                hw2 = HardwareView(model, None)
+                jobs.append({"kind": "corpus-model", "name": "%s @%s" % (s["name"], model), "hw": hw2, "old": s["old"],
+                             "new": s["new"], "acl": None})
         if s["vendor"] in ("juniper", "ribbon", "nokia"):
             continue
         text = _acl_text_for(rng, [s["old"], s["new"]])
@@ -117,9 +143,13 @@ def build_jobs():
             continue
         jobs.append({"kind": "acl", "name": "%s acl" % s["name"], "hw": s["hw"], "old": s["old"], "new": s["new"],
                      "acl": acl})
-        if s["vendor"] in vendor_acl and rng.random() < 0.5:
-            jobs.append({"kind": "acl-shared", "name": "%s vendor-acl" % s["name"], "hw": s["hw"], "old": s["new"],
+        if s["vendor"] in vendor_acl:
+            # one compiled ACL object shared by all samples of the vendor, both directions
+            jobs.append({"kind": "acl-shared", "name": "%s vendor-acl rev" % s["name"], "hw": s["hw"], "old": s["new"],
                          "new": s["old"], "acl": vendor_acl[s["vendor"]][1]})
+            if rng.random() < 0.5:
+                jobs.append({"kind": "acl-shared", "name": "%s vendor-acl fwd" % s["name"], "hw": s["hw"], "old": s["old"],
+                             "new": s["new"], "acl": vendor_acl[s["vendor"]][1]})
     for k in range(18):
         vendor, model = SYN_VENDORS[k % len(SYN_VENDORS)]
         hw = HardwareView(model % k, None)
